@@ -37,6 +37,7 @@ func Specs(tier string) []*Spec {
 	}
 	type root struct {
 		name   string
+		learn  []uint64
 		voters []uint64
 		prefix func(async bool) []Op
 		confs  []string
@@ -55,29 +56,31 @@ func Specs(tier string) []*Spec {
 		return out
 	}
 	roots := []root{
-		{"fresh", []uint64{1, 2, 3}, func(bool) []Op { return nil }, []string{"v4"}},
-		{"leader", []uint64{1, 2, 3}, func(a bool) []Op {
+		{"fresh", nil, []uint64{1, 2, 3}, func(bool) []Op { return nil }, []string{"v4"}},
+		{"leader", nil, []uint64{1, 2, 3}, func(a bool) []Op {
 			return cat([]Op{{OpCampaign, 0}}, cyc(a), stepOps(0), cyc(a))
 		}, []string{"r1", "v4"}},
-		{"follower", []uint64{1, 2, 3}, func(a bool) []Op { return cat(stepOps(4), cyc(a)) }, []string{"v4"}},
-		{"singleton", []uint64{1}, func(a bool) []Op { return cat([]Op{{OpCampaign, 0}}, cyc(a)) }, []string{"v2", "l2"}},
+		{"follower", nil, []uint64{1, 2, 3}, func(a bool) []Op { return cat(stepOps(4), cyc(a)) }, []string{"v4"}},
+		{"singleton", nil, []uint64{1}, func(a bool) []Op { return cat([]Op{{OpCampaign, 0}}, cyc(a)) }, []string{"v2", "l2"}},
 		// a leader whose own removal is committed and about to be applied
-		{"leader-removing-itself", []uint64{1, 2, 3}, func(a bool) []Op {
+		{"leader-removing-itself", nil, []uint64{1, 2, 3}, func(a bool) []Op {
 			return cat([]Op{{OpCampaign, 0}}, cyc(a), stepOps(0), cyc(a), stepOps(5), cyc(a), []Op{{OpProposeConf, 0}}, cyc(a), stepOps(5))
 		}, []string{"r1", "v1"}},
 		// a follower that has stored (not yet committed) its own removal
-		{"follower-being-removed", []uint64{1, 2, 3}, func(a bool) []Op { return cat(stepOps(15), cyc(a)) }, []string{"v1"}},
+		{"follower-being-removed", nil, []uint64{1, 2, 3}, func(a bool) []Op { return cat(stepOps(15), cyc(a)) }, []string{"v1"}},
+		// a learner that follows leader 2 and has stored (not yet committed) the addition of node 4
+		{"learner", []uint64{1}, []uint64{2, 3}, func(a bool) []Op { return cat(stepOps(16), cyc(a)) }, []string{"v1"}},
 	}
 	var out []*Spec
 	for _, r := range roots {
 		for _, async := range []bool{false, true} {
 			for _, feat := range []int{0, 1} {
-				if feat == 1 && (r.name == "singleton" || r.name == "follower-being-removed") {
+				if feat == 1 && (r.name == "singleton" || r.name == "follower-being-removed" || r.name == "learner") {
 					continue
 				}
 				sp := &Spec{
 					Name:   fmt.Sprintf("nodex/%s/%s/%s", r.name, map[bool]string{false: "sync", true: "async"}[async], []string{"plain", "prevote+checkquorum"}[feat]),
-					Voters: r.voters, Async: async, PreVote: feat == 1, CheckQuorum: feat == 1, StepDown: feat == 1,
+					Voters: r.voters, Learners: r.learn, Async: async, PreVote: feat == 1, CheckQuorum: feat == 1, StepDown: feat == 1,
 					Ops: alphabet(async, len(r.confs)), MaxProposals: 2, MaxReads: 1, Depth: depth, ConfMenu: r.confs,
 				}
 				if feat == 1 && r.name == "leader" {
